@@ -484,8 +484,70 @@ func (c *Ctx) checkPublishedNotRecycled(rule string) {
 			}
 		})
 	}
+	// inside the tag cache: a cached slice is shared by every metric allocated with those tags for as
+	// long as the reporter lives. It leaves the cache only as a result of Get / Set - it is never handed
+	// to a callback or to other code (an eviction hook that recycles it lets the next conversion
+	// overwrite the tags of metrics that are still in use)
+	nCache := 0
+	fEntries := c.field("internal/cache", "TagCache", "entries")
+	if fEntries == nil {
+		c.missing(rule, "internal/cache.TagCache.entries")
+	} else {
+		for _, fn := range c.funcsOfPkg("internal/cache") {
+			fn := fn
+			cached := map[ssa.Value]bool{}
+			instrsOf(fn, func(in ssa.Instruction) {
+				switch x := in.(type) {
+				case *ssa.Lookup:
+					if f, _ := loadedField(x.X); f == fEntries {
+						cached[x] = true
+					}
+				case *ssa.Extract:
+					if lk, ok := x.Tuple.(*ssa.Lookup); ok && x.Index == 0 {
+						if f, _ := loadedField(lk.X); f == fEntries {
+							cached[x] = true
+						}
+					}
+					if nx, ok := x.Tuple.(*ssa.Next); ok && x.Index == 2 {
+						if rg, isR := nx.Iter.(*ssa.Range); isR {
+							if f, _ := loadedField(rg.X); f == fEntries {
+								cached[x] = true
+							}
+						}
+					}
+				}
+			})
+			if len(cached) == 0 {
+				continue
+			}
+			nCache++
+			instrsOf(fn, func(in ssa.Instruction) {
+				ci, ok := in.(ssa.CallInstruction)
+				if !ok {
+					return
+				}
+				com := ci.Common()
+				if _, isB := com.Value.(*ssa.Builtin); isB {
+					return
+				}
+				for _, a := range com.Args {
+					v := stripConv(a)
+					if sl, isSl := v.(*ssa.Slice); isSl {
+						v = stripConv(sl.X)
+					}
+					if cached[canon(v)] || cached[v] {
+						if g := com.StaticCallee(); g != nil && g.Pkg == fn.Pkg && len(summarize(g, 3)) == 0 {
+							continue // a helper of the cache that does not recycle its arguments
+						}
+						okAll = false
+						c.bad(rule, c.fnKey(fn)+":cached", in.Pos(), "a tag slice held by the tag cache is handed to other code ("+calleeName(ci)+"): the cached slice is shared by every metric allocated with those tags; if that code recycles it, the next tag conversion overwrites the tags of metrics that are still in use", c.describe(in))
+					}
+				}
+			})
+		}
+	}
 	if okAll {
-		c.ok(rule, "m3:published-tag-slices", token.NoPos, fmt.Sprintf("no published tag slice is returned to a pool (%d publishing functions)", n))
+		c.ok(rule, "m3:published-tag-slices", token.NoPos, fmt.Sprintf("no published tag slice is returned to a pool (%d publishing functions); cached tag slices leave the cache only as results (%d cache functions)", n, nCache))
 	}
 	c.floor(rule, n, 1)
 }
